@@ -7,3 +7,25 @@ use super::*;
 pub fn dump(r: &RotationState) -> (u64, bool, bool, u64, bool) {
     (r.message_id, r.proposed.is_some(), r.pending.is_some(), r.confirmed.as_ref().map(|c| c.1).unwrap_or(0), r.timeout)
 }
+
+/// decode a rotation message and re-encode what was understood: (id, propose, confirm)
+pub fn rot_decode(d: &[u8]) -> Option<(u64, Vec<u8>, Option<Vec<u8>>)> {
+    match RotationMessage::read_from(Cursor::new(d)) {
+        Ok(m) => Some((m.message_id, m.propose.bytes().to_vec(), m.confirm.map(|c| c.bytes().to_vec()))),
+        Err(_) => None,
+    }
+}
+
+pub fn rot_encode(id: u64, propose: &[u8], confirm: Option<&[u8]>) -> Vec<u8> {
+    let mut v = SmallVec::<[u8; 96]>::new();
+    v.extend_from_slice(propose);
+    let c = confirm.map(|c| {
+        let mut w = SmallVec::<[u8; 96]>::new();
+        w.extend_from_slice(c);
+        EcdhPublicKey::new(&X25519, w)
+    });
+    let m = RotationMessage { message_id: id, propose: EcdhPublicKey::new(&X25519, v), confirm: c };
+    let mut out = Vec::new();
+    m.write_to(&mut out).unwrap();
+    out
+}
